@@ -38,3 +38,7 @@ func VerifPoolTrace(limit int64, ops []int) (live, peak int, taken int64, done i
 	}
 	return p.live, p.peak, taken, done
 }
+
+// VerifWorkLimit is workLimit: the pixel-decode work allowed for an input of
+// rawLen bytes (verification property C08).
+func VerifWorkLimit(rawLen int64) int64 { return workLimit(rawLen) }
